@@ -719,4 +719,8 @@ def is_consistent(C):
 
     Order as computed by :func:`ro`.
     """
-    return not C3.resolver(C, False, None).had_inconsistency
+    resolver = C3.resolver(C, False, None)
+    # The merge for *C* itself (as opposed to its bases) only runs, and
+    # only records a direct inconsistency, when the MRO is computed.
+    resolver.mro()
+    return not resolver.had_inconsistency
